@@ -72,7 +72,11 @@ Definition validate_params (t : string) (l : Z) : bool :=
 (* ==================================================================================================
    client side
    ================================================================================================== *)
-Record ccfg := { c_type : string; c_level : Z }.
+(* c_hdr: ClientConfig.Headers restricted to what matters here: the value configured under a key that
+   canonicalises to Content-Encoding (any spelling: http.Header.Set canonicalises the key), None if
+   there is none.  (Two keys with different spellings of Content-Encoding would be applied in Go map
+   order: not modelled.) *)
+Record ccfg := { c_type : string; c_level : Z; c_hdr : option string }.
 
 (* func (hcs *ClientConfig) Validate() error *)
 Definition client_validate (cc : ccfg) : bool :=
@@ -99,6 +103,10 @@ Definition writer_level (c : codec) (l : Z) : Z :=
    on the compressing path (compressor.compress reads and closes the body itself); how net/http
    treats a failing body of an uncompressed request is outside the model. *)
 Record creq := { q_ce : list string; q_body : option bytes;
+                 (* values the caller stored under a NON-canonical spelling of the key (e.g. header map
+                    entry "content-encoding"): invisible to Header.Get/Set/Add, canonicalised only by the
+                    receiving side, after the canonical key's values (net/http writes keys sorted) *)
+                 q_raw : list string;
                  q_stream : bool;   (* the body is an opaque reader: no length declared (sent chunked) *)
                  q_rerr : bool;     (* the body's Read fails after delivering the bytes *)
                  q_cerr : bool }.   (* the body's Close fails *)
@@ -173,8 +181,9 @@ Section Codec.
       | Some buf => CSent {| w_ce := r.(q_ce) ++ [t]; w_body := buf; w_cl := blen buf; w_rewind := Some buf |}
       end.
 
-  (* ClientConfig.Validate + ToClient + one request through the resulting transport *)
-  Definition client (cc : ccfg) (r : creq) : cres :=
+  (* ClientConfig.Validate + ToClient up to and including the compressing round tripper: what is handed
+     to the NEXT round tripper (canonical Content-Encoding values only) *)
+  Definition client_rt (cc : ccfg) (r : creq) : cres :=
     if negb (client_validate cc) then CRefused
     else if is_compressed cc.(c_type) then
       match writer_codec cc.(c_type) with
@@ -182,6 +191,22 @@ Section Codec.
       | Some c => round_trip cc.(c_type) c (effective_level cc.(c_level)) r
       end
     else CSent (plain r).
+
+  (* ToClient wraps the transport in headerRoundTripper FIRST and in compressRoundTripper afterwards, so
+     a request passes the compressor and then  for k, v := range headers { req.Header.Set(k, v) } :
+     a configured Content-Encoding REPLACES whatever the compressor (or the caller) put under the
+     canonical key.  On the wire the receiver canonicalises every key: the values stored under other
+     spellings follow. *)
+  Definition headers_rt (cc : ccfg) (ce : list string) : list string :=
+    match cc.(c_hdr) with Some v => [v] | None => ce end.
+
+  Definition on_wire (cc : ccfg) (r : creq) (w : wreq) : wreq :=
+    {| w_ce := headers_rt cc w.(w_ce) ++ r.(q_raw); w_body := w.(w_body); w_cl := w.(w_cl);
+       w_rewind := w.(w_rewind) |}.
+
+  (* the whole client chain as ToClient builds it, up to what the server receives *)
+  Definition client (cc : ccfg) (r : creq) : cres :=
+    match client_rt cc r with CSent w => CSent (on_wire cc r w) | x => x end.
 
   (* ================================================================================================
      server side
